@@ -8,6 +8,13 @@ import (
 
 // AssignmentToString returns the string representation of the assignment.
 func AssignmentToString(f *model.Function, a model.Assignment) string {
+	switch nested := a.(type) {
+	case model.NestStruct:
+		return nestStructToString(f, nested)
+	case *model.NestStruct:
+		return nestStructToString(f, *nested)
+	}
+
 	var sb strings.Builder
 	sb.WriteString(a.String())
 	if a.RetError() {
@@ -16,6 +23,29 @@ func AssignmentToString(f *model.Function, a model.Assignment) string {
 		} else {
 			sb.WriteString("if err != nil {\nreturn\n}\n")
 		}
+	}
+	return sb.String()
+}
+
+// nestStructToString renders a nested struct assignment like NestStruct.String does,
+// but renders its contents with AssignmentToString so that an error-returning
+// assignment on a nested path is followed by its error check, too.
+func nestStructToString(f *model.Function, s model.NestStruct) string {
+	var sb strings.Builder
+	if s.NullCheckExpr != "" {
+		sb.WriteString("if ")
+		sb.WriteString(s.NullCheckExpr)
+		sb.WriteString(" != nil {\n")
+	}
+	if s.InitExpr != "" {
+		sb.WriteString(s.InitExpr)
+		sb.WriteString("\n")
+	}
+	for _, content := range s.Contents {
+		sb.WriteString(AssignmentToString(f, content))
+	}
+	if s.NullCheckExpr != "" {
+		sb.WriteString("}\n")
 	}
 	return sb.String()
 }
